@@ -44,7 +44,7 @@ def build_harness():
     fcntl.flock(lock, fcntl.LOCK_EX)
     try:
         t0 = time.time()
-        p = sh(["cargo", "build", "--offline", "--quiet"], cwd=HARNESS, timeout=1800,
+        p = sh(["cargo", "build", "--offline", "--quiet", "--message-format", "short"], cwd=HARNESS, timeout=1800,
                env={"CARGO_NET_OFFLINE": "true", "CARGO_TERM_COLOR": "never"})
         if p.returncode != 0:
             tool_error("harness build failed:\n" + (p.stdout or "")[-4000:])
